@@ -14,8 +14,9 @@ package main
 //   innerPrefix  valid iff  hasInnerPrefix
 //   leafPrefix   valid iff  hasLeafPrefix
 //
-// (table inferred from the 3+8+6 read sites of today's tree, confirmed by
-// reading, and re-checked on every run against the decoders themselves).
+// (today's table; it is inferred on every run from the decoders themselves,
+// see inferSessionTable, so renaming a field or adding a fourth conditionally
+// assigned field with a boolean discriminator needs no change here).
 //
 // Producer side, on the guarded summary (E11, with store effects) of every
 // function that stores the field: the field is stored on a path iff the
@@ -38,20 +39,184 @@ type sessField struct {
 	disc  string // bool field name, or "size" for to-from == ShortSize
 }
 
-var sessionTable = []sessField{
-	{"bm", "size"},
-	{"innerPrefix", "hasInnerPrefix"},
-	{"leafPrefix", "hasLeafPrefix"},
+// inferSessionTable derives the (field, discriminator) pairs from the node
+// decoders themselves. A decoder is a function that stores session fields
+// through a *querySession parameter. On its guarded summary with effects:
+//   - a field F stored on some but not all non-panicking paths is conditional;
+//   - a bool field B is its discriminator if B's final value is the constant
+//     true on exactly the paths that store F and the constant false on every
+//     other path (so B is assigned on every path of that decoder);
+//   - a conditional uint64 field without such a B whose paths are exactly those
+//     on which the final bit range has the short size (to = from + ShortSize)
+//     gets the discriminator "size".
+//
+// Only the names from/to (the bit range, also anchors of C01.layout) and the
+// wire name ShortSize are assumed.
+func inferSessionTable(p *Program, fns []*ssa.Function) ([]sessField, []string) {
+	var table []sessField
+	var notes []string
+	seen := map[string]bool{}
+	for _, f := range fns {
+		if !trieScope(f) || f.Synthetic != "" || len(f.Blocks) == 0 {
+			continue
+		}
+		var sp *ssa.Parameter
+		for _, prm := range f.Params {
+			if isSessionPtr(prm) {
+				sp = prm
+			}
+		}
+		if sp == nil {
+			continue
+		}
+		stores := false
+		instrsOf(f, func(_ *ssa.BasicBlock, in ssa.Instruction) {
+			if st, ok := in.(*ssa.Store); ok {
+				if _, _, fa := fieldOfAddr(st.Addr); fa != nil && fa.X == ssa.Value(sp) {
+					stores = true
+				}
+			}
+		})
+		if !stores {
+			continue
+		}
+		ps, why := flatten(p, f, map[ssa.Value]*term{sp: S("QR")}, func(g *ssa.Function) bool { return false })
+		if why != "" {
+			notes = append(notes, shortFn(f)+": not summarised ("+why+")")
+			continue
+		}
+		var live []fpath
+		for _, fp := range ps {
+			if !fp.panics {
+				live = append(live, fp)
+			}
+		}
+		if len(live) < 2 {
+			continue
+		}
+		fields := map[string][]bool{} // field -> per path: stored?
+		finals := make([]map[string]string, len(live))
+		for i, fp := range live {
+			finals[i] = fp.finalEffects()
+			for k := range finals[i] {
+				if strings.HasPrefix(k, "QR.") && !strings.Contains(k[3:], ".") {
+					if fields[k[3:]] == nil {
+						fields[k[3:]] = make([]bool, len(live))
+					}
+				}
+			}
+		}
+		for i := range live {
+			for name := range fields {
+				_, ok := finals[i]["QR."+name]
+				fields[name][i] = ok
+			}
+		}
+		var names []string
+		for name := range fields {
+			names = append(names, name)
+		}
+		sort.Strings(names)
+		for _, F := range names {
+			nSt := 0
+			for _, b := range fields[F] {
+				if b {
+					nSt++
+				}
+			}
+			if nSt == 0 || nSt == len(live) {
+				continue // unconditional
+			}
+			// is F itself a discriminator-like bool? skip bools
+			if v := anyFinal(finals, "QR."+F); v == "true" || v == "false" {
+				continue
+			}
+			disc := ""
+			for _, B := range names {
+				if B == F {
+					continue
+				}
+				ok := true
+				for i := range live {
+					v, has := finals[i]["QR."+B]
+					want := "false"
+					if fields[F][i] {
+						want = "true"
+					}
+					if !has || v != want {
+						ok = false
+						break
+					}
+				}
+				if ok {
+					disc = B
+					break
+				}
+			}
+			if disc == "" {
+				// size form
+				ok := true
+				for i := range live {
+					to, has := finals[i]["QR."+curSess.to]
+					short := has && sizeIsShortTerm(to)
+					if fields[F][i] != short {
+						ok = false
+						break
+					}
+				}
+				if ok {
+					disc = "size"
+				}
+			}
+			if disc == "" {
+				continue
+			}
+			key := F + "/" + disc
+			if !seen[key] {
+				seen[key] = true
+				table = append(table, sessField{F, disc})
+			}
+		}
+	}
+	sort.Slice(table, func(i, j int) bool { return table[i].field < table[j].field })
+	return table, notes
+}
+
+func anyFinal(finals []map[string]string, k string) string {
+	for _, m := range finals {
+		if v, ok := m[k]; ok {
+			return v
+		}
+	}
+	return ""
+}
+
+func sizeIsShortTerm(to string) bool {
+	return strings.Contains(to, "Slim.ShortSize") && !strings.Contains(to, "mul(") || strings.HasSuffix(to, ",Slim.ShortSize)") || strings.Contains(to, "(Slim.ShortSize,")
 }
 
 func isSessionPtr(v ssa.Value) bool {
-	n := namedOf(v.Type())
-	return n != nil && n.Obj().Name() == "querySession" && n.Obj().Pkg() != nil && n.Obj().Pkg().Path() == triePath
+	return isSessionType(v.Type())
 }
 
 func checkSessionTypestate(p *Program, r *Report, rule string) {
 	r.Rule(rule, "typestate (E11 producers, CFG consumers)", "conditionally assigned session fields are read only under their validity discriminator", 12)
 	fns := p.FuncsOf(triePath)
+	sessionTable, notes := inferSessionTable(p, fns)
+	for _, n := range notes {
+		r.Note("%s: %s", rule, n)
+	}
+	if len(sessionTable) == 0 {
+		r.Unk("conditionally assigned session fields", "", "no node decoder with a conditionally assigned field and a discriminator was found (anchor not found)")
+		return
+	}
+	{
+		var s []string
+		for _, sf := range sessionTable {
+			s = append(s, sf.field+" valid iff "+discText(sf))
+		}
+		r.Note("%s: inferred table: %s", rule, strings.Join(s, "; "))
+	}
 	// producers and consumers per field
 	for _, sf := range sessionTable {
 		var producers []*ssa.Function
@@ -120,8 +285,8 @@ func checkSessionTypestate(p *Program, r *Report, rule string) {
 				}
 				valid, known := false, false
 				if sf.disc == "size" {
-					to, okT := fin["QR.to"]
-					from, okF := fin["QR.from"]
+					to, okT := fin["QR."+curSess.to]
+					from, okF := fin["QR."+curSess.from]
 					if okT {
 						known = true
 						fromT := "QR.from"
@@ -184,9 +349,7 @@ func discText(sf sessField) string {
 }
 
 // sizeIsShort: the final value of QR.to on the path is (final QR.from) + Slim.ShortSize.
-func sizeIsShort(fp fpath, to string) bool {
-	return strings.Contains(to, "Slim.ShortSize") && !strings.Contains(to, "mul(") || strings.HasSuffix(to, ",Slim.ShortSize)") || strings.Contains(to, "(Slim.ShortSize,")
-}
+func sizeIsShort(fp fpath, to string) bool { return sizeIsShortTerm(to) }
 
 func storedBefore(ld *ssa.UnOp, field string) bool {
 	for _, in := range ld.Block().Instrs {
@@ -325,5 +488,5 @@ func isSizeEq(p *Program, e *evaluator, f *ssa.Function, bo *ssa.BinOp, base ssa
 		}
 		return ""
 	}
-	return fieldOf(sub.X) == "to" && fieldOf(sub.Y) == "from"
+	return fieldOf(sub.X) == curSess.to && fieldOf(sub.Y) == curSess.from
 }
